@@ -257,10 +257,10 @@ Local Open Scope float_scope.
 Definition tr3 : Type := (float * float * float)%type.
 Definition closen (rtol atol a b : float) : bool :=
   (is_nan a && is_nan b) || close rtol atol a b.
-Definition rtol := %(rtol)s.
+Definition rtol := @RTOL@.
 Definition close3 (a b : tr3) : bool :=
   let '(a1, a2, a3) := a in let '(b1, b2, b3) := b in
-  closen rtol %(atw)s a1 b1 && closen rtol %(atg)s a2 b2 && closen rtol %(ath)s a3 b3.
+  closen rtol @ATW@ a1 b1 && closen rtol @ATG@ a2 b2 && closen rtol @ATH@ a3 b3.
 Fixpoint all2b {A} (c : A -> A -> bool) (a b : list A) : bool :=
   match a, b with
   | [], [] => true
@@ -270,7 +270,7 @@ Fixpoint all2b {A} (c : A -> A -> bool) (a b : list A) : bool :=
 Definition all3 (a b : list (list (list tr3))) : bool := all2b (all2b (all2b close3)) a b.
 
 (* oracle tables for the scipy classes: nodes handed to the class, and rows (x, g, g', g'') *)
-Definition otab : Type := (list float * list float * list (float * float * float * float))%%type.
+Definition otab : Type := (list float * list float * list (float * float * float * float))%type.
 Definition key_close := close 0x1.19799812dea11p-40 0.   (* 1e-12 relative *)
 Definition nanf : float := nan.
 Definition row_lookup (rows : list (float * float * float * float)) (x : float) : float * float * float :=
@@ -366,6 +366,10 @@ def oracle_exact(ctx, ds, method, order, out, stats):
     be the analytic one on the WHOLE grid"""
     W, G, H = out
     lo, hi = min(ds["vols"]), max(ds["vols"])
+    nlo, nhi = lo, hi
+    if method in ("lagrange", "krogh", "pchip", "akima", "hermite"):
+        nv_ = [ds["vols"][i] for i in nodes_of(ds, order)]
+        nlo, nhi = min(nv_), max(nv_)
     for q in range(ds["nq"]):
         for m in range(ds["np"]):
             if q == 0 and m < 3:
@@ -377,8 +381,12 @@ def oracle_exact(ctx, ds, method, order, out, stats):
                 p0, p1, p2 = analytic(ds, q, m, v)
                 w, g, h = W[iv, q, m], G[iv, q, m], H[iv, q, m]
                 inside = lo <= v <= hi
-                if method == "akima" and not inside and all(math.isnan(t) for t in (w, g, h)):
+                if method == "akima" and not (nlo <= v <= nhi) and all(math.isnan(t) for t in (w, g, h)):
+                    # D4: NaN outside the range of the NODES (sub-sampling may drop the smallest volume, so
+                    # this can even be inside the sampled volume range)
                     stats["akima_nan"].append((order, q, m, v))
+                    if inside:
+                        stats["akima_nan_inside"].append((order, q, m, v))
                     continue
                 what = None
                 if not (abs(w / math.exp(p0) - 1.0) <= TOL_PL_W):
@@ -688,7 +696,7 @@ def run(ctx):
             for scale in ("unit", "phys"):
                 datasets.append(make_dataset(rng, kind, scale, ctx.tier))
     cases = []          # (ds_index, method, order, out) compared in Coq
-    stats = dict(akima_nan=[], fd=0)
+    stats = dict(akima_nan=[], akima_nan_inside=[], fd=0)
     rejected = {}
     hermite_errs = []
     n_lib = n_poly = 0
@@ -741,19 +749,22 @@ def run(ctx):
         o, q, m, v = stats["akima_nan"][0]
         ctx.failure("akima-nan-outside-range",
                     "method 'akima' returns NaN for every grid volume outside the sampled volume range "
-                    "(Akima1DInterpolator is evaluated without extrapolate=True); %d such entries seen" % len(stats["akima_nan"]),
+                    "(Akima1DInterpolator is evaluated without extrapolate=True); %d such entries seen, %d of them INSIDE the "
+                    "sampled volume range but beyond the last sub-sampled node ([::interval] can drop the smallest volume)"
+                    % (len(stats["akima_nan"]), len(stats["akima_nan_inside"])),
                     input=dict(method="akima", order=o, q=q, m=m, volume=v), expected="finite consistent triple",
                     observed="(nan, nan, nan)")
     if hermite_errs:
         di, o, err = hermite_errs[0]
         key = "hermite-typeerror" if err.startswith("TypeError") else "hermite-raises"
         ctx.failure(key, "method 'hermite' raises for every input (%d of %d calls): %s"
-                    % (len(hermite_errs), sum(1 for d in datasets for _ in [0]) and len(hermite_errs), err),
+                    % (len(hermite_errs), len(hermite_errs), err),
                     input=dict(method="hermite", order=o, volumes=datasets[di]["vols"]), expected="a consistent triple",
                     observed=err)
 
     # 3. Coq comparison
-    hdr = SHARD_HEADER % dict(rtol=fhex(RTOL), atw=fhex(ATOL_W), atg=fhex(ATOL_G), ath=fhex(ATOL_H))
+    hdr = (SHARD_HEADER.replace("@RTOL@", fhex(RTOL)).replace("@ATW@", fhex(ATOL_W)).replace("@ATG@", fhex(ATOL_G))
+           .replace("@ATH@", fhex(ATOL_H)))
     per = 40
     files = []
     chunks = [cases[i:i + per] for i in range(0, len(cases), per)]
